@@ -6,7 +6,7 @@ echo "== $src"
 d=$(mktemp -d /tmp/trymut.XXXXXX)
 cp -r /repo/. $d/ && rm -rf $d/.git
 (cd $d && patch -p1 -s < $src/patch.diff) || { echo PATCH-FAILED; rm -rf $d; exit 2; }
-out=$(${GENQLCHECK:-/verif/bin/genqlcheck} -repo $d -property $pid -no-evidence 2>&1)
+out=$(timeout 600 ${GENQLCHECK:-/verif/bin/genqlcheck} -repo $d -property $pid -no-evidence 2>&1)
 if echo "$out" | grep -q '^VIOLATION'; then echo "CAUGHT by $pid:"; echo "$out" | grep -E '^(VIOLATED|UNDECIDED)' | head -4 | cut -c1-260; else echo "MISSED by $pid"; fi
-if [ -n "$ALSO" ]; then out=$(${GENQLCHECK:-/verif/bin/genqlcheck} -repo $d -property all -no-evidence 2>&1); echo "-- all properties:"; echo "$out" | grep -E '^(VIOLATED|UNDECIDED)' | head -6 | cut -c1-200; fi
+if [ -n "$ALSO" ]; then out=$(timeout 600 ${GENQLCHECK:-/verif/bin/genqlcheck} -repo $d -property all -no-evidence 2>&1); echo "-- all properties:"; echo "$out" | grep -E '^(VIOLATED|UNDECIDED)' | head -6 | cut -c1-200; fi
 rm -rf $d
